@@ -866,7 +866,7 @@ pub fn proxy_set_prototype_of(
                     JsValue::Object(p) => Some(p),
                     _ => return Err(JsError::type_error("Prototype must be object or null")),
                 };
-                obj.borrow_mut().prototype = new_proto;
+                crate::value::set_prototype_checked(&obj, new_proto)?;
                 return Ok(true);
             }
         }
